@@ -12,7 +12,15 @@ import (
 
 func init() {
 	verifrt.Register("VH_c17_pairs", VH_c17_pairs)
+	verifrt.Register("VH_c17_races", VH_c17_races)
 }
+
+// C17 (data-race half): the same operation pairs with the engine's happens-before race detection on.
+// Every execution explored (both orders of the two operations, handler goroutines, timers) is checked for
+// two conflicting accesses of repository code that no synchronisation orders.
+func VH_c17_races() { vhC17(true) }
+
+func VH_c17_pairs() { vhC17(false) }
 
 type vhC17Handler struct{ n int }
 
@@ -27,7 +35,7 @@ var vhC17Ops = []string{
 // C17 (the half a scheduler can decide): every pair of operations of the public API / the receive
 // path, run concurrently in every interleaving within the pre-emption bound, completes: no thread is
 // left blocked on the stack's own locks. Data races in the sense of the memory model are outside.
-func VH_c17_pairs() {
+func vhC17(race bool) {
 	n := len(vhC17Ops)
 	var pairs [][2]int
 	for i := 0; i < n; i++ {
@@ -144,6 +152,9 @@ func VH_c17_pairs() {
 	}
 	op0, op1 := mk(pc[0], 0), mk(pc[1], 1)
 	done := [2]bool{}
+	if race {
+		verifrt.RaceDetect(true)
+	}
 	verifrt.Go(func() { op0(); done[0] = true })
 	verifrt.Go(func() { op1(); done[1] = true })
 	if verifrt.Param("unlock", 0) == 1 {
@@ -167,6 +178,7 @@ func VH_c17_pairs() {
 	verifrt.FireTimers()
 	verifrt.SpawnedFIFO(false) // whatever is still armed fires now (whole timer functions, every order)
 	verifrt.RunReadyFIFO()
+	verifrt.RaceDetect(false)
 	verifrt.Reach("both-started")
 	verifrt.Assert("both-operations-complete", done[0] && done[1])
 	verifrt.Assert("no-thread-left-blocked", verifrt.BlockedThreads() == 0)
